@@ -471,21 +471,27 @@ def check_buffer_agreement(chk, facts):
                key=f"advertised|{k}", file=req.file, line=req.lo, fn=req.path,
                detail="the advertised size is not a linear form in the outline's counts on some path (cannot be compared with the carving)")
     chk.floor("C12-d", "advertised-size cases", len(adv), 4)
-    for mpath, is_ft in (("skrifa::outline::glyf::memory::FreeTypeOutlineMemory::<'a>::new", True),
-                         ("skrifa::outline::glyf::memory::HarfBuzzOutlineMemory::<'a>::new", False)):
-        m = chk.anchor("C12-d", mpath, facts.body(mpath))
-        carved = {}
+    MEM = "skrifa::outline::glyf::memory::"
+    _outcomes = {}
 
-        def on_edge2(bb, tgt, t, state, env, trace, m=m):
+    def carve_outcomes(m, depth=0):
+        """set of (labels, carve sequence) over the non-Err exits of `m`; calls to other functions of the memory module
+        that carve (helpers extracted from the constructors) are inlined, their element type parameter substituted"""
+        if m.path in _outcomes:
+            return _outcomes[m.path]
+        _outcomes[m.path] = set()
+        outs = set()
+
+        def on_edge2(bb, tgt, t, state, env, trace):
             lab = label_edge(m, t, tgt)
             if lab is None:
                 return None
             labels, seq = state
             return (labels | {lab}, seq)
 
-        def on_call2(bb, t, state, env, trace, m=m):
+        def on_call2(bb, t, state, env, trace):
+            labels, seq = state
             if t.callee.endswith("memory::alloc_slice"):
-                labels, seq = state
                 ty = t.d["cargs"].strip("[]")
                 e = expr_of(m, t.args[1])
                 fld = None
@@ -494,17 +500,47 @@ def check_buffer_agreement(chk, facts):
                         if isinstance(x, tuple) and x[0] == "f" and x[2]:
                             fld = x[2]
                 return [((labels, seq + ((fld, ty),)), None)]
+            if t.callee.startswith(MEM) and depth < 3 and facts.body(t.callee) is not None and t.callee != m.path:
+                sub = carve_outcomes(facts.body(t.callee), depth + 1)
+                if not sub:
+                    return None
+                targ = t.d["cargs"].strip("[]")
+                alts = []
+                ek = (1, 0) if m.local_ty(t.dest[0]).startswith("core::option::Option<") else \
+                    ((0, 1) if m.local_ty(t.dest[0]).startswith("core::result::Result<") else None)
+                for sl, ss in sub:
+                    merged = dict(labels)
+                    clash = False
+                    for k2, v2 in sl:
+                        if k2 in merged and merged[k2] != v2:
+                            clash = True
+                        merged[k2] = v2
+                    if clash:
+                        continue
+                    # a single type parameter of the helper stands for the caller's type argument
+                    ss2 = tuple((f_, targ if re.fullmatch(r"[A-Z]\w{0,2}(/#\d+)?", ty_) and "," not in targ else ty_) for f_, ty_ in ss)
+                    alts.append(((frozenset(merged.items()), seq + ss2), {t.dest[0]: ek[0]} if ek and not t.dest[1] else None))
+                if ek and not t.dest[1]:
+                    alts.append(((labels, seq), {t.dest[0]: ek[1]}))     # the helper failed: the caller's `?` leaves
+                return alts or None
             return None
 
-        def on_exit2(bb, state, rv, env, trace, m=m):
+        def on_exit2(bb, state, rv, env, trace):
             if ret_class(m, rv) == "err":
                 return
-            labels, seq = state
+            outs.add(state)
+
+        Explorer(m, on_call=on_call2, on_edge=on_edge2, on_exit=on_exit2).run((frozenset(), ()))
+        _outcomes[m.path] = outs
+        return outs
+
+    for mpath, is_ft in (("skrifa::outline::glyf::memory::FreeTypeOutlineMemory::<'a>::new", True),
+                         ("skrifa::outline::glyf::memory::HarfBuzzOutlineMemory::<'a>::new", False)):
+        m = chk.anchor("C12-d", mpath, facts.body(mpath))
+        carved = {}
+        for labels, seq in carve_outcomes(m):
             key = (dict(labels).get("H", False), dict(labels).get("V", False))
             carved.setdefault(key, set()).add(seq)
-
-        ex2 = Explorer(m, on_call=on_call2, on_edge=on_edge2, on_exit=on_exit2)
-        ex2.run((frozenset(), ()))
         nm = mpath.split("::")[-3]
         for key, seqs in sorted(carved.items()):
             if not is_ft and key[0]:
